@@ -467,7 +467,7 @@ func GenC02(r *Rng, n int, tier string) []PipeIn {
 		if r.Chance(1, 8) {
 			cfg.Matcher = "always"
 		} else if r.Chance(1, 5) {
-			cfg.Matcher = Pick(r, []string{"dissect:%{a} %{b}", "dissect:k=%{v};", "dissect:%{a}:%{b}:%{c}"})
+			cfg.Matcher = Pick(r, []string{"dissect:%{a} %{b}", "dissect:k=%{v};", "dissect:%{a}:%{b}:%{c}", "dissecti:k=%{v};", "dissecti:ID=%{id} user=%{u};", "dissecti:ID=%{id} user=%{u};"})
 		}
 		cfg.HoldAll = true
 		in := PipeIn{Cfg: cfg}
@@ -487,6 +487,20 @@ func GenC02(r *Rng, n int, tier string) []PipeIn {
 				b[i] = c02Alpha[r.Intn(len(c02Alpha))]
 			}
 			return b
+		}
+		if strings.HasPrefix(cfg.Matcher, "dissecti:") {
+			// lines for the ignore-case dissect patterns: the literals in random ASCII case, surrounded by
+			// runes whose Unicode lower-casing changes their byte length or that fold onto ASCII letters
+			// (Kelvin sign, dotted capital I, long s), invalid UTF-8 and ordinary text
+			pieces := []string{"ID=", "id=", "Id=", " user=", " USER=", " uSeR=", ";", "k=", "K=", "\xe2\x84\xaa", "\xc4\xb0", "\xc5\xbf", "\xff", "\xc3\xa9",
+				"5", "Bob", " ", "x", "\xe2\x84\xaa=", "\xc5\xbfer=", "ID", "user"}
+			mk = func() []byte {
+				var b []byte
+				for i, n := 0, r.Intn(9); i < n; i++ {
+					b = append(b, pieces[r.Intn(len(pieces))]...)
+				}
+				return b
+			}
 		}
 		maxLines := 25
 		if r.Chance(1, 10) {
